@@ -67,7 +67,7 @@ func ProcessCmap(cmap tables.Cmap, os2FontPage tables.FontPage) (Cmap, UnicodeVa
 		id := cmapID{platform: table.PlatformID, encoding: table.EncodingID}
 		switch table := table.Subtable.(type) {
 		case tables.CmapSubtable0:
-			candidates = append(candidates, newCmap0(table))
+			candidates = append(candidates, newCmap0(table, id.platform == tables.PlatformMac))
 			candidateIds = append(candidateIds, id)
 		case tables.CmapSubtable2:
 			// we dont support this deprecated format
@@ -183,13 +183,19 @@ func findSubtable(id cmapID, cmaps []cmapID) int {
 // use Macintosh encoding, storing indexIntoEncoding -> glyphIndex
 type cmap0 map[rune]uint8
 
-func newCmap0(cm tables.CmapSubtable0) cmap0 {
+// the character codes are in the Macintosh (Roman) encoding for the
+// platform Macintosh only : they are Unicode code points on the other platforms
+func newCmap0(cm tables.CmapSubtable0, isMac bool) cmap0 {
 	out := make(cmap0)
 	for b, gid := range cm.GlyphIdArray {
 		if b == 0 {
 			continue
 		}
-		out[tables.DecodeMacintoshByte(byte(b))] = gid
+		if isMac {
+			out[tables.DecodeMacintoshByte(byte(b))] = gid
+		} else {
+			out[rune(b)] = gid
+		}
 	}
 	return out
 }
